@@ -6,12 +6,15 @@ import (
 	"bufio"
 	"context"
 	"encoding/json"
+	"errors"
 	"fmt"
 	"os"
+	"sync"
 	"testing"
 	"time"
 
 	"github.com/projecteru2/core/selfmon"
+	"github.com/projecteru2/core/store"
 	"github.com/projecteru2/core/types"
 
 	"verifharness/ckit"
@@ -42,6 +45,63 @@ type ndCase struct {
 	Impl   map[string]any `json:"impl"`
 }
 
+// ndStore decorates the store of the watcher's Calcium: it can break the node-status stream
+// (the watch ends, the channel closes), fail one UpdateNodes of a node, and it counts the
+// UpdateNodes calls (= end of a SetNode{WorkloadsDown} handler) per node.
+type ndStore struct {
+	store.Store
+	mu       sync.Mutex
+	cancels  []context.CancelFunc
+	failNext map[string]bool
+	updates  map[string]int
+}
+
+func (s *ndStore) NodeStatusStream(ctx context.Context) chan *types.NodeStatus {
+	ictx, cancel := context.WithCancel(ctx)
+	s.mu.Lock()
+	s.cancels = append(s.cancels, cancel)
+	s.mu.Unlock()
+	return s.Store.NodeStatusStream(ictx) // the etcd store closes the channel when its watch context ends
+}
+
+// breakStreams ends every open watch: the watcher sees its message channel closed
+func (s *ndStore) breakStreams() {
+	s.mu.Lock()
+	cs := s.cancels
+	s.cancels = nil
+	s.mu.Unlock()
+	for _, c := range cs {
+		c()
+	}
+}
+
+func (s *ndStore) UpdateNodes(ctx context.Context, nodes ...*types.Node) error {
+	name := ""
+	if len(nodes) > 0 && nodes[0] != nil {
+		name = nodes[0].Name
+	}
+	s.mu.Lock()
+	fail := s.failNext[name]
+	delete(s.failNext, name)
+	s.mu.Unlock()
+	var err error
+	if fail {
+		err = errors.New("verif: injected UpdateNodes failure")
+	} else {
+		err = s.Store.UpdateNodes(ctx, nodes...)
+	}
+	s.mu.Lock()
+	s.updates[name]++
+	s.mu.Unlock()
+	return err
+}
+
+func (s *ndStore) seen(name string) int {
+	s.mu.Lock()
+	defer s.mu.Unlock()
+	return s.updates[name]
+}
+
 func wlStatus(cl *ckit.Cluster, wid string) string {
 	st, err := cl.Store.Store.GetWorkloadStatus(cl.Ctx(), wid)
 	if err != nil || st == nil {
@@ -70,24 +130,22 @@ func runNodeDown(t *testing.T, c *ndCase, tag string) {
 		nodes[nd.Name] = addNodeOpts(cl, o)
 	}
 	raw := cl.Store.Store
+	dec := &ndStore{Store: cl.C.VerifStore(), failNext: map[string]bool{}, updates: map[string]int{}}
+	cl.C.VerifSetStore(dec)
+	wcfg := cl.Cfg
+	wcfg.ConnectionTimeout = 500 * time.Millisecond // pause of the watcher's run loop between two activations
+	base := map[string]int{}                        // UpdateNodes count per node when the current wait started
 	wids := map[int]string{}
 	onNode := map[string][]int{}
 	var cancel context.CancelFunc
 	var releaseKey func()
 	active := false
 	hb := map[string]bool{}
-	// the handler (SetNode{WorkloadsDown}) ends with store.UpdateNodes(n): wait for that call
-	// (recorded by ckit's store decorator) and for the reports
+	// the handler (SetNode{WorkloadsDown}) ends with store.UpdateNodes(n): wait for that call and for the reports
 	waitDown := func(n string) {
 		deadline := time.Now().Add(3 * time.Second)
 		for time.Now().Before(deadline) {
-			all := false
-			for _, ev := range cl.Trace() {
-				if ev.Kind == "storeUpdateNodes" && ev.Node == name(n) {
-					all = true
-				}
-			}
-			all = all && cl.Rec.InFlight() == 0
+			all := dec.seen(name(n)) > base[n] && cl.Rec.InFlight() == 0
 			for _, id := range onNode[n] {
 				if wlStatus(cl, wids[id]) != "00" {
 					all = false
@@ -104,9 +162,18 @@ func runNodeDown(t *testing.T, c *ndCase, tag string) {
 		case "heartbeat":
 			fatalIf(t, raw.SetNodeStatus(cl.Ctx(), nodes[e.N], 300), "heartbeat")
 			hb[e.N] = true
+		case "failUpdate":
+			dec.mu.Lock()
+			dec.failNext[name(e.N)] = true // the next store.UpdateNodes of this node fails (single fault)
+			dec.mu.Unlock()
+		case "breakStream":
+			// the node-status stream ends (compaction, connection reset): the watcher must give the key up,
+			// come back after ConnectionTimeout and scan again
+			dec.breakStreams()
+			active = false
 		case "lapse":
 			had := hb[e.N]
-			cl.ResetTrace()
+			base[e.N] = dec.seen(name(e.N))
 			if e.How == "ttl" {
 				fatalIf(t, raw.SetNodeStatus(cl.Ctx(), nodes[e.N], 1), "short heartbeat")
 				had = true
@@ -124,7 +191,6 @@ func runNodeDown(t *testing.T, c *ndCase, tag string) {
 			if active && had {
 				waitDown(e.N)
 			}
-			cl.ResetTrace()
 		case "create":
 			msgs, err := deploy(cl, deployOpts("app", "web", pod, 1, "AUTO", cpumemReq(0.5, 1<<28, false), []string{name(e.N)}))
 			fatalIf(t, err, "deploy")
@@ -146,12 +212,23 @@ func runNodeDown(t *testing.T, c *ndCase, tag string) {
 			fatalIf(t, err, "hold active key")
 			var ctx context.Context
 			ctx, cancel = context.WithCancel(cl.Ctx())
-			go selfmon.RunNodeStatusWatcher(ctx, cl.Cfg, cl.C, t)
+			go selfmon.RunNodeStatusWatcher(ctx, wcfg, cl.C, t)
 			time.Sleep(300 * time.Millisecond) // let it try (and fail) to register, and let any start-up work finish
 			cl.Quiesce()
 		case "startWatcher":
-			cl.ResetTrace()
-			if releaseKey != nil {
+			for _, nd := range c.Nodes {
+				base[nd.Name] = dec.seen(name(nd.Name))
+			}
+			if e.How == "auto" {
+				// re-activation of the SAME watcher after its stream broke: first the key disappears (<= 1.5 s), then it is taken again
+				d1 := time.Now().Add(1500 * time.Millisecond)
+				for time.Now().Before(d1) {
+					if r, err := cl.Etcd.Get(cl.Ctx(), selfmon.ActiveKey); err == nil && len(r.Kvs) == 0 {
+						break
+					}
+					time.Sleep(5 * time.Millisecond)
+				}
+			} else if releaseKey != nil {
 				// failover: the other instance goes away, our standby watcher becomes active (it retries every second)
 				releaseKey()
 				releaseKey = nil
@@ -159,7 +236,7 @@ func runNodeDown(t *testing.T, c *ndCase, tag string) {
 			} else {
 				var ctx context.Context
 				ctx, cancel = context.WithCancel(cl.Ctx())
-				go selfmon.RunNodeStatusWatcher(ctx, cl.Cfg, cl.C, t)
+				go selfmon.RunNodeStatusWatcher(ctx, wcfg, cl.C, t)
 			}
 			// wait until the watcher holds the active key, then give init + the watch a moment
 			deadline := time.Now().Add(5 * time.Second)
@@ -246,6 +323,7 @@ func genNodeDownScript(r *hx.Rng) ([]ndNode, []ndEvt) {
 		}
 	}
 	ttlUsed := false
+	broke := false
 	for i := 0; i < total; i++ {
 		if i == standbyAt {
 			evs = append(evs, ndEvt{E: "standby"})
@@ -261,6 +339,14 @@ func genNodeDownScript(r *hx.Rng) ([]ndNode, []ndEvt) {
 		case k < 6 && len(created) > 0:
 			evs = append(evs, ndEvt{E: "report", ID: hx.Pick(r, created...), Running: r.Chance(75), Healthy: r.Chance(60)})
 		case k < 9:
+			if i > startAt && r.Chance(20) {
+				evs = append(evs, ndEvt{E: "failUpdate", N: hx.Pick(r, names...)})
+			}
+			if i > startAt && standbyAt < 0 && !broke && r.Chance(15) {
+				broke = true
+				evs = append(evs, ndEvt{E: "breakStream"}, ndEvt{E: "lapse", N: hx.Pick(r, names...), How: "delete"}, ndEvt{E: "startWatcher", How: "auto"})
+				continue
+			}
 			how := "delete"
 			if !ttlUsed && r.Chance(12) {
 				how, ttlUsed = "ttl", true
@@ -285,6 +371,12 @@ func nodeDownCorpus() []ndCase {
 		// workloads whose last report was "running, unhealthy" / "stopped, healthy": all must become 00
 		{Nodes: []ndNode{{Name: "n1"}}, Script: []ndEvt{{E: "heartbeat", N: "n1"}, {E: "create", N: "n1", ID: 1}, {E: "create", N: "n1", ID: 2}, {E: "create", N: "n1", ID: 3},
 			{E: "report", ID: 1, Running: true, Healthy: false}, {E: "report", ID: 2, Running: false, Healthy: true}, up(3), {E: "startWatcher"}, {E: "lapse", N: "n1", How: "delete"}}},
+		// the node-status stream breaks; a heartbeat expires while no watch exists; the watcher comes back and must scan
+		{Nodes: n2, Script: []ndEvt{{E: "heartbeat", N: "n1"}, {E: "heartbeat", N: "n2"}, {E: "create", N: "n1", ID: 1}, {E: "create", N: "n2", ID: 2}, up(1), up(2),
+			{E: "startWatcher"}, {E: "breakStream"}, {E: "lapse", N: "n1", How: "delete"}, {E: "startWatcher", How: "auto"}}},
+		// the store update of the watcher's SetNode fails once: the workloads are still marked down
+		{Nodes: []ndNode{{Name: "n1"}}, Script: []ndEvt{{E: "heartbeat", N: "n1"}, {E: "create", N: "n1", ID: 1}, {E: "create", N: "n1", ID: 2}, up(1), up(2),
+			{E: "startWatcher"}, {E: "failUpdate", N: "n1"}, {E: "lapse", N: "n1", How: "delete"}}},
 		// failover: the lapse happens while our watcher is standby; its later activation must scan
 		{Nodes: n2, Script: []ndEvt{{E: "heartbeat", N: "n1"}, {E: "heartbeat", N: "n2"}, {E: "create", N: "n1", ID: 1}, {E: "create", N: "n2", ID: 2}, up(1), up(2),
 			{E: "standby"}, {E: "lapse", N: "n1", How: "delete"}, {E: "startWatcher"}}},
